@@ -103,9 +103,13 @@ def check_pair(small, large, inputs):
       bad.append(('C16:size-differs', f'buffer {i}: size {size}, ordinary path embeds {len(want)} bytes'))
     if off + size > len(large) or off <= 1 and len(want):
       bad.append(('C16:out-of-bounds', f'buffer {i}: offset {off} size {size}, file has {len(large)} bytes'))
+      bad.append(('C05:external-buffer-decodes-wrong', f'buffer {i}: its offset/size ({off}, {size}) run past the '
+                  f'file ({len(large)} bytes): the stored constant cannot be decoded'))
     elif bytes(large[off:off + size]) != want:
       bad.append(('C16:bytes-differ', f'buffer {i}: offset {off} size {size} does not select the bytes '
                   'the ordinary path embeds'))
+      bad.append(('C05:external-buffer-decodes-wrong', f'buffer {i}: decoding the bytes its offset/size select '
+                  'does not give the constant the in-place form stores (C05 holds for that form)'))
     regions.append((off, size, i))
   regions.sort()
   for (o1, s1, i1), (o2, s2, i2) in zip(regions, regions[1:]):
@@ -279,7 +283,7 @@ def main():
     except Exception as e:  # pylint: disable=broad-except
       import traceback
       bad, info = [('HARNESS:error', traceback.format_exc()[-500:])], None
-    for key, msg in bad[:3]:
+    for key, msg in bad[:6]:
       viol.append({'key': key, 'what': msg, 'input': inp})
     dist['returned'] += 1
     if info:
